@@ -6,6 +6,7 @@ import (
 	"fmt"
 	"io"
 	"strings"
+	"unicode/utf8"
 
 	"github.com/moorara/algo/grammar"
 	"github.com/moorara/algo/lexer"
@@ -15,6 +16,10 @@ import (
 const (
 	errorState = -1
 	bufferSize = 4096
+
+	// maxLexemeSize is the size of the longest lexeme the input buffer is guaranteed to hold
+	// together with one look-ahead character, wherever the lexeme begins.
+	maxLexemeSize = bufferSize - utf8.UTFMax
 )
 
 const (
@@ -93,7 +98,7 @@ func (s *source) Read(p []byte) (int, error) {
 // NextToken scans the input stream until it recognizes a valid token, which it then returns.
 // If the end of the input is reached, it returns an io.EOF error.
 func (l *Lexer) NextToken() (lexer.Token, error) {
-	for curr, next := 0, 0; ; curr = next {
+	for curr, next, size := 0, 0, 0; ; curr = next {
 		// Read the next character from the input stream.
 		r, err := l.in.Next()
 		if err != nil {
@@ -106,6 +111,12 @@ func (l *Lexer) NextToken() (lexer.Token, error) {
 		if next == errorState {
 			// Retract one character, as the last read character did not belong to the current token.
 			l.in.Retract()
+
+			// The input buffer cannot return a lexeme that is longer than one of its halves.
+			if size > maxLexemeSize && readsLexeme(curr) {
+				pos := l.in.Skip()
+				return lexer.Token{}, fmt.Errorf("lexical error at %s: token is longer than %d bytes", pos, maxLexemeSize)
+			}
 
 			// Evaluate the final state of the DFA.
 			token := l.evalDFA(curr)
@@ -120,6 +131,18 @@ func (l *Lexer) NextToken() (lexer.Token, error) {
 				return token, nil
 			}
 		}
+
+		size += utf8.RuneLen(r)
+	}
+}
+
+// readsLexeme determines whether the token of a final state is built from the text of its lexeme.
+func readsLexeme(state int) bool {
+	switch state {
+	case 17, 32, 33, 34, 35, 36, 37, 39, 40, 42, 46, 50:
+		return true
+	default:
+		return false
 	}
 }
 
